@@ -27,6 +27,9 @@ TOL = 1e-12          # on 1 - cos^2 of the projective angle  (angle <= 1e-6)
 COND_MAX = 1e4
 ENTRY_MAX = 1e6
 CHAIN_MAX = 8
+REP_TOL = 1e-6       # relative residual of "cached line/plane contains the vertices": the plane is joined from the
+                     # first vertices only, so the others carry the float error of the chain (cond <= 1e4, observed
+                     # up to 1.3e-9 in 2.3e5 runs); a stale or unmoved subspace gives residuals of order 1
 
 
 # ---------------------------------------------------------------------------------------------------------------------
@@ -67,6 +70,37 @@ def proj_defect(a: np.ndarray, b: np.ndarray, nax: int) -> tuple[float, int]:
     return float(np.max(d)) if d.size else 0.0, int(np.sum(~ok))
 
 
+MAX_AFF_SEEN = 0.0
+EPS = 2.220446049250313e-16
+
+
+def affine_defect(a: np.ndarray, b: np.ndarray, cond: float) -> float:
+    """Point-like objects only: difference of the affine coordinates x_i/x_n relative to the size of the point,
+    divided by its own tolerance 100*eps*cond^2*(|x|max/|x_n|) (the float error of a chain with condition number
+    `cond` -- squared, because the batch path of utils.inv (adjugate/det) is only accurate to about eps*cond^2; with
+    eps*cond the clean tree produced a ratio of 16 on a 65-matrix collection -- amplified by the division by a
+    relatively small last coordinate); > 1 means violation.
+    The homogeneous angle is blind to an error in the LAST coordinate of a far-away point ((1e6, 0, 1) vs
+    (1e6, 0, 1.01) subtend 1e-8); the affine chart is not."""
+    if a.shape != b.shape or a.size == 0:
+        return 0.0
+    A, B = a.astype(np.complex128), b.astype(np.complex128)
+    with np.errstate(all="ignore"):
+        ma = np.max(np.abs(A), axis=-1)
+        mb = np.max(np.abs(B), axis=-1)
+        ok = (np.abs(A[..., -1]) > 1e-7 * ma) & (np.abs(B[..., -1]) > 1e-7 * mb) & (ma > 0) & (mb > 0)
+        if not np.any(ok):
+            return 0.0
+        amp = np.maximum(ma / np.where(ok, np.abs(A[..., -1]), 1), mb / np.where(ok, np.abs(B[..., -1]), 1))
+        xa = A[..., :-1] / np.where(ok, A[..., -1], 1)[..., None]
+        xb = B[..., :-1] / np.where(ok, B[..., -1], 1)[..., None]
+        size = np.maximum(1.0, np.maximum(np.max(np.abs(xa), axis=-1), np.max(np.abs(xb), axis=-1)))
+        d = np.max(np.abs(xa - xb), axis=-1) / size
+        tol = np.maximum(1e-9, 100.0 * EPS * cond * cond * amp)
+        r = np.where(ok, d / tol, 0.0)
+    return float(np.max(r)) if np.all(np.isfinite(r)) else math.inf
+
+
 def kind_of(o) -> tuple:
     m = W.meta(o)
     if m is None:
@@ -82,7 +116,7 @@ def tensor_axes(o) -> int:
     return sum(o.tensor_shape)
 
 
-def approx(a, b) -> tuple[bool, str, float]:
+def approx(a, b, cond: float = COND_MAX, aff: bool = False) -> tuple[bool, str, float]:
     """Projective equality of two library objects of the same kind."""
     if isinstance(a, BaseException) or isinstance(b, BaseException):
         same = type(a) is type(b)
@@ -112,6 +146,12 @@ def approx(a, b) -> tuple[bool, str, float]:
             d3, _ = proj_defect(x.array, y.array, sum(x.tensor_shape))
             if d3 > worst:
                 worst, what = d3, attr
+    if aff and worst <= TOL and W.meta(a)["base"] in ("point", "segment", "polygon", "polyhedron", "polytope"):
+        da = affine_defect(a.array, b.array, cond)
+        global MAX_AFF_SEEN
+        MAX_AFF_SEEN = max(MAX_AFF_SEEN, da if math.isfinite(da) else 0.0)
+        if da > 1.0:
+            return False, f"affine coordinates (difference is {da:.3g} times its tolerance 100*eps*cond^2*|x|/|x_n|, cond={cond:.3g})", da
     return worst <= TOL, what, worst
 
 
@@ -126,7 +166,7 @@ def rep_invariant(o) -> tuple[bool, str]:
             return False, f"_plane shape {pl.shape} does not match vertices {v.shape}"
         r = np.abs(np.einsum("...j,...vj->...v", pl, v))
         s = np.linalg.norm(pl, axis=-1)[..., None] * np.linalg.norm(v, axis=-1)
-        if np.any(r > 1e-9 * np.where(s > 0, s, 1)):
+        if np.any(r > REP_TOL * np.where(s > 0, s, 1)):
             return False, f"_plane does not contain the vertices (relative residual {float(np.max(r / np.where(s > 0, s, 1))):.2e})"
     if isinstance(line, Tensor):
         l = np.asarray(line.array)
@@ -147,7 +187,7 @@ def rep_invariant(o) -> tuple[bool, str]:
             # contravariant line L^{ij} (two planes): a point x lies on it iff L^{ij} x_j = 0
             r = np.linalg.norm(np.einsum("...kl,...vl->...vk", l, v), axis=-1)
             s = np.linalg.norm(l, axis=(-2, -1))[..., None] * np.linalg.norm(v, axis=-1)
-        if np.any(r > 1e-9 * np.where(s > 0, s, 1)):
+        if np.any(r > REP_TOL * np.where(s > 0, s, 1)):
             return False, f"_line does not contain the vertices (relative residual {float(np.max(r / np.where(s > 0, s, 1))):.2e})"
     return True, ""
 
@@ -219,13 +259,19 @@ class Gen:
             c = rng.random()
             if c < 0.12:
                 # structured matrices: permutations, signed diagonals, zero diagonal, unimodular shears
-                kind = rng.choice(["perm", "diag", "zerodiag", "shear"])
+                kind = rng.choice(["perm", "diag", "zerodiag", "shear", "weakpersp", "weakpersp"])
                 if kind == "perm":
                     pm = list(range(n))
                     rng.shuffle(pm)
                     m = [[1 if pm[i] == j else 0 for j in range(n)] for i in range(n)]
                 elif kind == "diag":
                     m = [[rng.choice([1, -1, 2, -2]) if i == j else 0 for j in range(n)] for i in range(n)]
+                elif kind == "weakpersp":
+                    # almost affine: perspective entries far below the library's 1e-8 tolerance, but not zero
+                    m = [[(1 if i == j else rng.randint(-1, 1)) if i < n - 1 else 0 for j in range(n)] for i in range(n)]
+                    m[-1] = [rng.choice([1e-9, -3e-9, 5e-9, 0]) for _ in range(n - 1)] + [1]
+                    if abs(np.linalg.det(np.array(m, float))) < 0.5:
+                        m = [[1 if i == j else 0 for j in range(n)] for i in range(n - 1)] + [m[-1]]
                 elif kind == "zerodiag" and n >= 2:
                     m = [[0 if i == j else 1 for j in range(n)] for i in range(n)]
                     if abs(program._det(m)) < 1:
@@ -234,7 +280,7 @@ class Gen:
                     m = [[1 if i == j else (rng.randint(-2, 2) if j > i else 0) for j in range(n)] for i in range(n)]
                 if not cond_ok(np.array(m, float)):
                     m = self.inv_matrix(n)
-                s = self.add_recipe("transf", [m], {"dt": rng.choice(["f", "i"])})
+                s = self.add_recipe("transf", [m], {"dt": "f" if kind == "weakpersp" else rng.choice(["f", "i"])})
                 self.T[s] = {"m": np.array(m, float), "fshape": ()}
             elif c < 0.55 or d == 1:
                 m = self.inv_matrix(n)
@@ -321,6 +367,18 @@ class Gen:
             obj("plane", (kc,), "planecoll",
                 [[[rng.randint(-3, 3) or 1, rng.randint(-3, 3), rng.randint(-3, 3), rng.randint(-3, 3)] for _ in range(kc)]],
                 {"dt": "i"})
+        # far-away objects (coordinates ~1e5..1e6): errors in the last homogeneous coordinate become visible
+        if rng.random() < 0.5:
+            big = rng.choice([1e5, 1e6, 3e5])
+            n_before = set(self.X)
+            f1 = obj("point", (), "point", [[big * rng.choice([1, -2, 3])] + [big * rng.randint(-2, 2) for _ in range(d - 1)] + [1]],
+                     {"how": "hom", "dt": "f"})
+            f2 = obj("point", (), "point", [[big * rng.randint(-3, 3) + 1 for _ in range(d)] + [1]], {"how": "hom", "dt": "f"})
+            obj("segment", (), "segment", [f1, f2])
+            obj("point", (kc,), "pointcoll", [[[big * rng.randint(-3, 3) + k for _ in range(d)] + [1] for k in range(kc)]],
+                {"dt": "f"})
+            for k_ in set(self.X) - n_before:
+                self.X[k_]["far"] = True
         # special configurations: a segment with one end at infinity, the hyperplane at infinity, empty and
         # one-element collections
         inf_pt = obj("point", (), "point", [[1] + [rng.randint(-2, 2) for _ in range(d - 1)] + [0]], {"how": "hom", "dt": "i"})
@@ -397,6 +455,27 @@ class Gen:
                 out.append(s)
         return sorted(out)
 
+    def aff_ok(self, x, *ts) -> bool:
+        """The affine-chart comparison is used where it is needed and where its error model is sound: far-away
+        point-like objects under SINGLE transformations (np.linalg.inv is backward stable; the adjugate/det path that
+        utils.inv takes for >= 64 matrices loses up to cond^2..cond^3 and brought the clean tree within a factor 2 of
+        the tolerance in 1.2e5 runs)."""
+        return bool(self.X[x].get("far")) and all(self.T[t]["fshape"] == () for t in ts) and \
+            all(self.X[x].get("single_chain", True) for _ in (0,))
+
+    @staticmethod
+    def cnum(*ms) -> float:
+        """largest condition number among the matrices of a law (at least 10)"""
+        return float(max(10.0, *[float(np.max(np.linalg.cond(m))) for m in ms]))
+
+    def cok(self, m, x) -> bool:
+        """conditioning bound for a (composite) matrix acting on object x; far-away objects get a tighter one"""
+        if not cond_ok(m):
+            return False
+        if self.X[x].get("far"):
+            return bool(np.all(np.linalg.cond(m) <= 100.0))
+        return True
+
     def t_ok_x(self, ft, x) -> bool:
         ft = tuple(ft)
         return ft == () or (self.X[x]["kind"] in ("point", "line", "plane", "quadric") and self.X[x]["fshape"] == ft)
@@ -429,14 +508,18 @@ class Gen:
             if xs:
                 x = rng.choice(xs)
                 if law == "inverse":
-                    if cond_ok(self.shadow_mul(self.T[t]["m"], self.X[x]["acc"])):
-                        return {"i": i, "op": "law_inverse", "t": t, "x": x}
+                    if self.cok(self.shadow_mul(self.T[t]["m"], self.X[x]["acc"]), x) and self.cok(self.T[t]["m"], x):
+                        return {"i": i, "op": "law_inverse", "t": t, "x": x, "aff": self.aff_ok(x, t),
+                                "cond": self.cnum(self.T[t]["m"], self.shadow_mul(self.T[t]["m"], self.X[x]["acc"]))}
                 else:
                     s = self.pick_T(self.T[t]["fshape"]) if rng.random() < 0.7 else self.pick_T(())
                     if s is not None and self.tt_ok(s, t) and self.t_ok_x(self.T[s]["fshape"], x):
                         st = self.shadow_mul(self.T[s]["m"], self.T[t]["m"])
-                        if self.t_ok_x(st.shape[:-2], x) and cond_ok(st) and cond_ok(self.shadow_mul(st, self.X[x]["acc"])):
-                            return {"i": i, "op": "law_assoc", "s": s, "t": t, "x": x}
+                        if self.t_ok_x(st.shape[:-2], x) and self.cok(st, x) and self.cok(self.T[s]["m"], x) and \
+                                self.cok(self.T[t]["m"], x) and self.cok(self.shadow_mul(st, self.X[x]["acc"]), x):
+                            return {"i": i, "op": "law_assoc", "s": s, "t": t, "x": x, "aff": self.aff_ok(x, s, t),
+                                    "cond": self.cnum(st, self.T[s]["m"], self.T[t]["m"],
+                                                      self.shadow_mul(st, self.X[x]["acc"]))}
         r = rng.random()
         if r < 0.5:
             t = self.pick_T()
@@ -444,10 +527,12 @@ class Gen:
             if xs:
                 x = rng.choice(xs)
                 acc = self.shadow_mul(self.T[t]["m"], self.X[x]["acc"])
-                if cond_ok(acc):
+                if self.cok(acc, x) and self.cok(self.T[t]["m"], x) and \
+                        not (self.X[x].get("far") and self.T[t]["fshape"] != ()):
                     y = self.slot()
                     fs = self.X[x]["fshape"]
-                    self.X[y] = {"kind": self.X[x]["kind"], "fshape": fs, "acc": acc, "depth": self.X[x]["depth"] + 1}
+                    self.X[y] = {"kind": self.X[x]["kind"], "fshape": fs, "acc": acc, "depth": self.X[x]["depth"] + 1,
+                                 "far": self.X[x].get("far", False)}
                     return {"i": i, "op": "apply", "t": t, "x": x, "to": y, "via": rng.choice(["mul", "apply"])}
         if r < 0.7:
             t = self.pick_T()
@@ -678,8 +763,10 @@ def law(st, S, ctx, stats) -> dict | None:
     if isinstance(lhs, BaseException) and isinstance(rhs, BaseException):
         stats["both_raised"] += 1
         return None
-    ok, where, worst = approx(lhs, rhs)
-    stats["max_projective_defect"] = max(stats["max_projective_defect"], worst if math.isfinite(worst) else 0.0)
+    ok, where, worst = approx(lhs, rhs, float(st.get("cond", COND_MAX)), bool(st.get("aff")))
+    if ok:
+        stats["max_projective_defect"] = max(stats["max_projective_defect"], worst if math.isfinite(worst) else 0.0)
+    stats["max_affine_defect"] = max(stats.get("max_affine_defect", 0.0), MAX_AFF_SEEN)
     if ok:
         return None
     return mk_violation(st, name, kind, f"{what}: differ in {where} (projective defect {worst:.3e}, tolerance {TOL:.0e})"
